@@ -107,6 +107,7 @@ Parser::Parser(SyntaxTree* tree)
     : pool_(tree->unitPool())
     , tree_(tree)
     , backtracker_(nullptr)
+    , failedParseTkIdx_(LexedTokens::invalidIndex())
     , diagReporter_(this)
     , curTkIdx_(1)
     , isWithinKandRFuncDef_(false)
@@ -197,6 +198,20 @@ TranslationUnitSyntax* Parser::parse()
     auto unit = makeNode<TranslationUnitSyntax>();
     parseTranslationUnit(unit);
     return unit;
+}
+
+void Parser::noteFailedParse(LexedTokens::IndexType tkIdx)
+{
+    if (failedParseTkIdx_ == LexedTokens::invalidIndex() && !willBacktrack())
+        failedParseTkIdx_ = tkIdx;
+}
+
+void Parser::diagnoseFailedParseIfUndiagnosed()
+{
+    if (failedParseTkIdx_ == LexedTokens::invalidIndex()
+            || !tree_->diagnostics().empty())
+        return;
+    diagReporter_.UnexpectedTokensOfFailedParse(failedParseTkIdx_);
 }
 
 bool Parser::detectedAnyAmbiguity() const
